@@ -389,4 +389,5 @@ def normalize(a, min_val=0, max_val=1):
     a = np.asarray(a, dtype=float)
     a_min = a.min()
     a_max = a.max()
+    min_val, max_val = float(min_val), float(max_val)  # max_val - min_val wraps around for narrow NumPy integer scalars
     return (a - a_min) / (a_max - a_min) * (max_val - min_val) + min_val
